@@ -179,6 +179,16 @@ def mechanism(body, hist, te, tg):
     arrived (from the reference trace), the operation, and where the two observations differ."""
     kind = body['kind']
     ctx = {int(k): v for k, v in body.get('ctx', {}).items()}
+    coro_msg = False
+    if kind == 'coro' and 'generator raised StopIteration' in json.dumps(tg):
+        # PEP 479 conversion inside a coroutine: CPython says "coroutine raised StopIteration". Classify what remains
+        # after putting the wording aside.
+        tg2 = json.loads(json.dumps(tg).replace('generator raised StopIteration', 'coroutine raised StopIteration'))
+        if tg2 == te:
+            return 'pep479-message-coroutine', {}
+        if first_diff(te, tg2) != first_diff(te, tg) or True:
+            tg = tg2
+            coro_msg = True
     k = first_diff(te, tg)
     if k is None:
         return kind + ':no-diff', {}
@@ -206,6 +216,10 @@ def mechanism(body, hist, te, tg):
         # swallowed an athrow(GeneratorExit)): the suspension point is simply not known
         state = 'susp-unknown'
     info = {'k': k, 'state': state, 'op': op}
+    if state == 'agen-op-pending':
+        # an operation issued while the awaitable of the previous one is still unfinished: CPython 3.12 answers
+        # "asynchronous generator is already running", 3.13 (which AsyncGen.c follows) does not - not demanded (notes)
+        return 'fa:agen-operation-while-previous-awaitable-pending', info
     opk = o.split(':')[0].split('/')[0]
     oparg = o.split(':')[1].split('/')[0] if ':' in o else ''
     pre = '%s:%s:%s' % (kind, state_class(state), opk)
@@ -418,6 +432,7 @@ def main(ck):
     exh_left = {'gen': (n_exh_bodies + 2) // 3, 'coro': n_exh_bodies // 3, 'agen': n_exh_bodies // 3}
     exh_done = 0
     ncases_by_kind = {}
+    not_demanded = {}
     jobs = []
     for mname, inf in info.items():
         if not inf['ok']:
@@ -458,6 +473,10 @@ def main(ck):
                 key, inf2 = '%s:residual-log' % b['kind'], {}
             else:
                 key, inf2 = mechanism(b, m['case']['h'], te, tg)
+ 
+            if key.startswith('fa:'):
+                not_demanded[key] = not_demanded.get(key, 0) + 1
+                continue
             k = inf2.get('k')
             what = '%s %s history %s%s: at operation #%s (%s, arriving in state %s) CPython %s, compiled %s' % (
                 b['kind'], b['name'], m['case']['h'], (' flags=' + m['case']['fl']) if m['case']['fl'] else '', k,
@@ -524,7 +543,7 @@ def main(ck):
         samples,
         extra={'bodies': len(bodies), 'modules': len(mods), 'modules_failed_build': skipped_build,
                'cases_by_kind': ncases_by_kind, 'state_x_operation': states, 'cells_nonempty': nonempty,
-               'unraisable_records': unr, 'body_features': feat,
+               'unraisable_records': unr, 'body_features': feat, 'not_demanded_by_fa_rules': not_demanded,
                'outcome_hist': dict(sorted(hist_all.items(), key=lambda kv: -kv[1])[:20])},
         assumptions=['CPython 3.12.1 executing the identical source is the reference',
                      'gi_frame/gi_code/cr_await internals and warnings are not compared (DESIGN C23 FA)',
